@@ -1,5 +1,6 @@
 import LdarModel.Lemmas.Effects
 import LdarModel.Generated.Effects
+import LdarModel.Generated.Wiring
 /-
 C12 — seeded runs are reproducible and programs do not contaminate each other.
 
@@ -15,16 +16,19 @@ open LdarModel.Generated.Effects (tables)
 /-- the property at full strength: for every generator folder, every initial module state, every two
 schedules (any partition of the tasks over worker processes, any order inside a worker, any initial state
 of the three random generators of each worker — sequential mode is the one-worker schedule) whose tasks
-perform only effects listed in the extracted tables and draw nothing before the day loop,
+perform only effects listed in the extracted tables (draws only at extracted call sites, before the day
+loop only at extracted *prologue* sites; writes only to extracted shared containers; the infrastructure
+objects are touched the way the extracted copy wiring says: privately iff `tables.privateCopy`) and
+simulate at least one day,
 (1) in each worker every task's output equals its output when run alone in a fresh process, and
 (2) the two runs give every common task the same output. -/
 def C12_statement : Prop :=
   ∀ (F : Folder) (sh0 : Nat → List Nat) (ws ws' : List Worker),
-    (∀ w ∈ ws ++ ws', ∀ t ∈ w.tasks, conforms tables t.prog = true ∧ t.prog.dayLoopForm = true) →
-    (∀ w ∈ ws, runWorker tables.dayLoopReseeds F w.tasks (w.env sh0)
-        = w.tasks.map (alone tables.dayLoopReseeds F sh0)) ∧
-    (∀ t o o', (t, o) ∈ results tables.dayLoopReseeds F sh0 ws →
-        (t, o') ∈ results tables.dayLoopReseeds F sh0 ws' → o = o')
+    (∀ w ∈ ws ++ ws', ∀ t ∈ w.tasks, conforms tables t.prog = true ∧ t.prog.body ≠ []) →
+    (∀ w ∈ ws, runWorker tables.mode F w.tasks (w.env F sh0)
+        = w.tasks.map (alone tables.mode F sh0)) ∧
+    (∀ t o o', (t, o) ∈ results tables.mode F sh0 ws →
+        (t, o') ∈ results tables.mode F sh0 ws' → o = o')
 
 /-! ### table obligations (over the tables extracted from the source) -/
 
@@ -37,9 +41,60 @@ theorem no_shared_mutation : tables.noSharedMutation := by decide
 /-- the day loop, the emission-generation loops and the infrastructure construction re-seed first -/
 theorem consumers_reseeded : tables.consumersReseeded := by decide
 
-theorem day_loop_reseeds : tables.dayLoopReseeds = true := by decide
+/-- used by `C12`: the day-loop entry of `consumers_reseeded`.  Its other entries (emission-generation loops,
+infrastructure construction) are SIDE obligations: they concern the set-up phase that produces the generator
+folder, which the machine takes as given (`Folder`); C16/C17 own that phase. -/
+theorem day_loop_reseeds : tables.dayLoopReseeds = true :=
+  dayLoopReseeds_of_consumers tables consumers_reseeded
+
+/-- nothing random is lexically reachable from what a task runs before its first re-seed (constructors of the
+program, its methods, sensors, schedules, crews, the output manager, `infra.setup`, the statements of
+`run_simulation` before the loop): discharges the former `dayLoopForm` hypothesis statically -/
+theorem prologue_clean : tables.prologueClean := by decide
+
+/-- the task's private state is a fresh deep copy of the infrastructure it is handed: `simulate()` deep-copies
+its argument and uses only the copy (own extraction AND C01's `Generated/Wiring.lean`), and every
+`__reduce__`/`__setstate__`/... hook of a reachable class keeps deep-copy semantics; no `__deepcopy__` exists.
+A flat `__deepcopy__`, a dropped copy or a reconstructor that re-introduces a shared object re-opens this. -/
+theorem private_copy :
+    tables.privateCopy = true ∧
+    LdarModel.Generated.Wiring.simulateDeepCopies = true ∧
+    LdarModel.Generated.Wiring.simulateUsesOnlyCopy = true := by decide
+
+/-- reviewed non-RNG nondeterminism sources (file, function, kind) with the reason each cannot reach a
+compared output; a new source (a `set` iteration, a directory listing, a wall-clock read, `id`/`hash`) in a
+function that is not listed here re-opens `nondet_all_reviewed` -/
+def reviewedNondet : List (String × String × NondetKind × String) := [
+  ("file_processing/output_processing/program_output.py", "gen_estimated_comp_emissions_report", .setIteration,
+    "rows added in set order carry a unique (site, equipment, component, date) key and the frame is sorted by exactly that key before any use"),
+  ("scheduling/scheduled_survey_planner.py", "get_inactive_months", .setIteration,
+    "set of the integers 1..12: integer hashing and insertion order are fixed, iteration order is the same in every process"),
+  ("file_processing/output_processing/summary_output_helpers.py", "clear_directory", .dirListing,
+    "every entry is handled independently (delete unless kept)"),
+  ("file_processing/output_processing/summary_output_helpers.py", "mark_outputs_to_keep", .dirListing,
+    "every entry is renamed independently"),
+  ("file_processing/output_processing/summary_output_manager.py", "SummaryOutputManager.gen_summary_outputs", .dirListing,
+    "decides the ROW ORDER of the three summary files only; the check compares summaries of different schedules as sorted rows (C14 owns listing order)"),
+  ("file_processing/output_processing/summary_outputs.py", "summarize_program_outputs", .dirListing,
+    "row order of a summary file only, as above"),
+  ("initialization/args.py", "files_from_args", .dirListing, "command-line front end: parameter-file discovery, not part of run_ldar_sim (C18 owns intake order)"),
+  ("initialization/args.py", "files_from_args_sens", .dirListing, "sensitivity command-line front end"),
+  ("initialization/args.py", "files_from_path", .dirListing, "command-line front end, as above"),
+  ("ldar_sim_run.py", "setup_logging", .wallClock, "names the log file only; Logs/ is excluded from every comparison"),
+  ("simulation/simulation_helpers.py", "remove_non_preseed_files", .dirListing, "every entry is deleted independently")
+]
+
+theorem nondet_all_reviewed :
+    tables.nondetReviewed (reviewedNondet.map (fun r => (r.1, r.2.1, r.2.2.1))) := by decide
+
+theorem mode_eq : tables.mode = { reseed := true, copies := true } := by
+  simp only [Tables.mode, day_loop_reseeds, private_copy.1]
 
 /-! ### noninterference -/
+
+/-- the mode of the theorems: the day loop re-seeds first and every task deep-copies its infrastructure -/
+abbrev M1 : Mode := { reseed := true, copies := true }
+
 
 /-- one worker process, general form: tasks may write shared containers as long as no task reads them
 (`rel c = false`); then whatever ran before in this process (the process state `e` agrees with the freshly
@@ -47,46 +102,51 @@ imported module state on the relevant containers, its generators are in ANY stat
 is its output when run alone.  Induction over the worker's task list. -/
 theorem worker_noninterference (F : Folder) (sh0 : Nat → List Nat) (rel : Nat → Bool) :
     ∀ (tasks : List Task) (e : Env),
-      (∀ c, rel c = true → e.shared c = sh0 c) →
+      (∀ c, rel c = true → e.shared c = sh0 c) → e.objs = F.objects →
       (∀ t ∈ tasks, t.prog.clean rel = true) →
-      runWorker true F tasks e = tasks.map (alone true F sh0) := by
+      runWorker M1 F tasks e = tasks.map (alone M1 F sh0) := by
   intro tasks
   induction tasks with
-  | nil => intro _ _ _; rfl
+  | nil => intro _ _ _ _; rfl
   | cons t r ih =>
-    intro e hsh hcl
+    intro e hsh hobj hcl
     have hok := clean_ops_ok rel t.prog (hcl t (by simp))
-    have hag : Agree rel false e { shared := sh0, np := 0, std := 0, oth := 0 } :=
+    have hag : Agree rel false e { shared := sh0, objs := F.objects, np := 0, std := 0, oth := 0 } :=
       ⟨hsh, fun h => by cases h⟩
-    have h1 := exec_agree (F.seed t.sim) rel (t.prog.ops true) false
-      { acc := F.scenario t.sim, out := [] } e _ hok hag
-    have h2 := exec_shared_rel (F.seed t.sim) rel (t.prog.ops true) false
-      { acc := F.scenario t.sim, out := [] } e hok
+    have h1 := exec_agree t.sim (F.seed t.sim) rel (t.prog.ops true) false
+      { acc := F.scenario t.sim, out := [], objs := F.objects t.sim } e _ hok hag
+    have h2 := exec_shared_rel true t.sim (F.seed t.sim) rel (t.prog.ops true) false
+      { acc := F.scenario t.sim, out := [], objs := F.objects t.sim } e hok
+    have h3 := exec_objs t.sim (F.seed t.sim) (t.prog.ops true)
+      { acc := F.scenario t.sim, out := [], objs := F.objects t.sim } e
     simp only [runWorker, List.map_cons]
     congr 1
-    · simp only [runTask, alone]
+    · simp only [runTask, alone, hobj]
       rw [h1.1]
     · apply ih
       · intro c hc
-        simp only [runTask]
+        simp only [runTask, hobj]
         rw [h2 c hc]
         exact hsh c hc
+      · simp only [runTask, hobj]
+        rw [h3]
+        exact hobj
       · intro t' ht'
         exact hcl t' (by simp [ht'])
 
 /-- every schedule, general form (output-irrelevance lemma for written-but-never-read containers) -/
 theorem noninterference_irrelevant (F : Folder) (sh0 : Nat → List Nat) (rel : Nat → Bool) (ws : List Worker)
     (h : ∀ w ∈ ws, ∀ t ∈ w.tasks, t.prog.clean rel = true) :
-    runSchedule true F sh0 ws = ws.map (fun w => w.tasks.map (alone true F sh0)) := by
+    runSchedule M1 F sh0 ws = ws.map (fun w => w.tasks.map (alone M1 F sh0)) := by
   simp only [runSchedule]
   apply List.map_congr_left
   intro w hw
-  exact worker_noninterference F sh0 rel w.tasks (w.env sh0) (fun _ _ => rfl) (h w hw)
+  exact worker_noninterference F sh0 rel w.tasks (w.env F sh0) (fun _ _ => rfl) rfl (h w hw)
 
 /-- every schedule, strict form: no task writes any shared container -/
 theorem noninterference (F : Folder) (sh0 : Nat → List Nat) (ws : List Worker)
     (h : ∀ w ∈ ws, ∀ t ∈ w.tasks, t.prog.clean (fun _ => true) = true) :
-    runSchedule true F sh0 ws = ws.map (fun w => w.tasks.map (alone true F sh0)) :=
+    runSchedule M1 F sh0 ws = ws.map (fun w => w.tasks.map (alone M1 F sh0)) :=
   noninterference_irrelevant F sh0 (fun _ => true) ws h
 
 private theorem zip_map_self {α β : Type} (f : α → β) : ∀ l : List α, l.zip (l.map f) = l.map (fun t => (t, f t))
@@ -96,14 +156,14 @@ private theorem zip_map_self {α β : Type} (f : α → β) : ∀ l : List α, l
 /-- the (task, output) pairs of a whole run do not depend on the schedule -/
 theorem results_eq (F : Folder) (sh0 : Nat → List Nat) (rel : Nat → Bool) (ws : List Worker)
     (h : ∀ w ∈ ws, ∀ t ∈ w.tasks, t.prog.clean rel = true) :
-    results true F sh0 ws = (ws.flatMap (·.tasks)).map (fun t => (t, alone true F sh0 t)) := by
+    results M1 F sh0 ws = (ws.flatMap (·.tasks)).map (fun t => (t, alone M1 F sh0 t)) := by
   simp only [results]
   induction ws with
   | nil => rfl
   | cons w r ih =>
     simp only [List.flatMap_cons, List.map_append]
     rw [ih (fun w' hw' => h w' (by simp [hw']))]
-    rw [worker_noninterference F sh0 rel w.tasks (w.env sh0) (fun _ _ => rfl) (h w (by simp))]
+    rw [worker_noninterference F sh0 rel w.tasks (w.env F sh0) (fun _ _ => rfl) rfl (h w (by simp))]
     rw [zip_map_self]
 
 /-- two runs from the same generator folder — any two schedules, any generator states at process start —
@@ -112,7 +172,7 @@ theorem reproducible (F : Folder) (sh0 : Nat → List Nat) (rel : Nat → Bool) 
     (h : ∀ w ∈ ws, ∀ t ∈ w.tasks, t.prog.clean rel = true)
     (h' : ∀ w ∈ ws', ∀ t ∈ w.tasks, t.prog.clean rel = true)
     (t : Task) (o o' : List Nat)
-    (ho : (t, o) ∈ results true F sh0 ws) (ho' : (t, o') ∈ results true F sh0 ws') : o = o' := by
+    (ho : (t, o) ∈ results M1 F sh0 ws) (ho' : (t, o') ∈ results M1 F sh0 ws') : o = o' := by
   rw [results_eq F sh0 rel ws h] at ho
   rw [results_eq F sh0 rel ws' h'] at ho'
   simp only [List.mem_map, Prod.mk.injEq] at ho ho'
@@ -124,14 +184,15 @@ theorem reproducible (F : Folder) (sh0 : Nat → List Nat) (rel : Nat → Bool) 
 /-- C12 for the code base as extracted: the hypotheses of noninterference are discharged from the tables -/
 theorem C12 : C12_statement := by
   intro F sh0 ws ws' hall
-  rw [day_loop_reseeds]
+  rw [mode_eq]
   have hclean : ∀ w ∈ ws ++ ws', ∀ t ∈ w.tasks, t.prog.clean (fun _ => true) = true := by
     intro w hw t ht
     have := hall w hw t ht
-    exact conforms_clean tables t.prog rng_all_seeded no_shared_mutation this.1 this.2
+    exact conforms_clean tables t.prog rng_all_seeded no_shared_mutation this.1
+      (conforms_dayLoopForm tables t.prog prologue_clean this.1 this.2)
   refine ⟨?_, ?_⟩
   · intro w hw
-    exact worker_noninterference F sh0 (fun _ => true) w.tasks (w.env sh0) (fun _ _ => rfl)
+    exact worker_noninterference F sh0 (fun _ => true) w.tasks (w.env F sh0) (fun _ _ => rfl) rfl
       (hclean w (by simp [hw]))
   · intro t o o' ho ho'
     exact reproducible F sh0 (fun _ => true) ws ws'
@@ -140,15 +201,18 @@ theorem C12 : C12_statement := by
 /-! ### each hypothesis is needed (concrete witnesses on the executable model; these are the four defect
 classes the differential runs look for) -/
 
-private def F0 : Folder := { seed := fun sim d => 100 * sim + d + 1, scenario := fun sim => sim + 3 }
+private def F0 : Folder :=
+  { seed := fun sim d => 100 * sim + d + 1, scenario := fun sim => sim + 3, objects := fun _ _ => [] }
 private def sh00 : Nat → List Nat := fun _ => []
+private def E0 (np std : Nat) : Env := { shared := sh00, objs := F0.objects, np := np, std := std, oth := 0 }
+private def M0 : Mode := { reseed := false, copies := true }
+private def Mflat : Mode := { reseed := true, copies := false }
 
 /-- a draw from the never-seeded stdlib generator: the same task gives different outputs in two processes
 (F6: `from random import choice` in method.py) -/
 theorem C12_needs_seeded_generator :
     let t : Task := { prog := { prologue := [], body := [[.draw .stdlibRandom, .emit]], epilogue := [] }, sim := 0 }
-    runWorker true F0 [t] { shared := sh00, np := 0, std := 1, oth := 0 }
-      ≠ runWorker true F0 [t] { shared := sh00, np := 0, std := 2, oth := 0 } := by
+    runWorker M1 F0 [t] (E0 0 1) ≠ runWorker M1 F0 [t] (E0 0 2) := by
   decide +kernel
 
 /-- a run that appends to a shared container which a later run reads: the later task's output differs from
@@ -156,38 +220,48 @@ its output alone (F6: `_init_ts_columns` appends to the module-level TIMESERIES_
 theorem C12_needs_no_shared_mutation :
     let a : Task := { prog := { prologue := [.write 0 5], body := [[.emit]], epilogue := [] }, sim := 0 }
     let b : Task := { prog := { prologue := [.read 0], body := [[.emit]], epilogue := [] }, sim := 0 }
-    (runWorker true F0 [a, b] { shared := sh00, np := 0, std := 0, oth := 0 }).getLast?
-      ≠ some (alone true F0 sh00 b) := by
+    (runWorker M1 F0 [a, b] (E0 0 0)).getLast? ≠ some (alone M1 F0 sh00 b) := by
   decide +kernel
 
 /-- the daily re-seed removed: outputs depend on the generator state the process started with -/
 theorem C12_needs_day_loop_reseed :
     let t : Task := { prog := { prologue := [], body := [[.draw .numpyGlobal, .emit]], epilogue := [] }, sim := 0 }
-    runWorker false F0 [t] { shared := sh00, np := 1, std := 0, oth := 0 }
-      ≠ runWorker false F0 [t] { shared := sh00, np := 2, std := 0, oth := 0 } := by
+    runWorker M0 F0 [t] (E0 1 0) ≠ runWorker M0 F0 [t] (E0 2 0) := by
   decide +kernel
 
 /-- a draw before the first re-seed (outside day-loop form) -/
 theorem C12_needs_day_loop_form :
     let t : Task := { prog := { prologue := [.draw .numpyGlobal], body := [[.emit]], epilogue := [] }, sim := 0 }
-    runWorker true F0 [t] { shared := sh00, np := 1, std := 0, oth := 0 }
-      ≠ runWorker true F0 [t] { shared := sh00, np := 2, std := 0, oth := 0 } := by
+    runWorker M1 F0 [t] (E0 1 0) ≠ runWorker M1 F0 [t] (E0 2 0) := by
+  decide +kernel
+
+/-- the deep copy flattened or dropped (`copies = false`): a sticky per-object roll stored by one program is
+seen by the next program of the same simulation in the same process — its output differs from its output
+alone, while two tasks of DIFFERENT simulations, or the same two tasks in two processes, do not interfere
+(seeded defect class: flat `Emission.__deepcopy__` sharing `_tech_spat_covs`) -/
+theorem C12_needs_private_copy :
+    let a : Task := { prog := { prologue := [], body := [[.touch 3 1, .emit]], epilogue := [] }, sim := 0 }
+    let b : Task := { prog := { prologue := [], body := [[.look 3, .emit]], epilogue := [] }, sim := 0 }
+    let b1 : Task := { b with sim := 1 }
+    (runWorker Mflat F0 [a, b] (E0 0 0)).getLast? ≠ some (alone Mflat F0 sh00 b) ∧
+    (runWorker Mflat F0 [a, b1] (E0 0 0)).getLast? = some (alone Mflat F0 sh00 b1) ∧
+    (runWorker M1 F0 [a, b] (E0 0 0)).getLast? = some (alone M1 F0 sh00 b) := by
   decide +kernel
 
 /-- non-vacuity: two stochastic programs that satisfy the hypotheses of `C12` (they conform to the
-extracted tables and are in day-loop form), run in two different schedules with different generator
-states: same outputs, and the outputs do depend on the draws (the seed matters) -/
+extracted tables and simulate at least one day), touching and reading infrastructure objects, run in two
+different schedules with different generator states: same outputs, and the outputs do depend on the draws -/
 example :
-    let p1 : Prog := { prologue := [.comp 1], body := [[.draw .numpyGlobal, .emit], [.draw .numpyGlobal, .comp 2, .emit]], epilogue := [.emit] }
-    let p2 : Prog := { prologue := [.read 3], body := [[.draw .numpyGlobal, .draw .numpyGlobal, .emit], [.emit]], epilogue := [] }
+    let p1 : Prog := { prologue := [.comp 1, .touch 2 9], body := [[.draw .numpyGlobal, .look 2, .emit], [.draw .numpyGlobal, .comp 2, .emit]], epilogue := [.emit] }
+    let p2 : Prog := { prologue := [.read 3], body := [[.draw .numpyGlobal, .draw .numpyGlobal, .look 2, .emit], [.emit]], epilogue := [] }
     let t1 : Task := { prog := p1, sim := 0 }
-    let t2 : Task := { prog := p2, sim := 1 }
-    conforms tables p1 = true ∧ conforms tables p2 = true ∧ p1.dayLoopForm = true ∧ p2.dayLoopForm = true ∧
-    runSchedule true F0 sh00 [{ np := 5, std := 6, oth := 7, tasks := [t1, t2] }]
-      = [[alone true F0 sh00 t1, alone true F0 sh00 t2]] ∧
-    runSchedule true F0 sh00 [{ np := 1, std := 1, oth := 1, tasks := [t2] }, { np := 9, std := 9, oth := 9, tasks := [t1] }]
-      = [[alone true F0 sh00 t2], [alone true F0 sh00 t1]] ∧
-    alone true F0 sh00 t1 ≠ alone true { F0 with seed := fun _ d => d + 50 } sh00 t1 := by
+    let t2 : Task := { prog := p2, sim := 0 }
+    conforms tables p1 = true ∧ conforms tables p2 = true ∧ p1.body ≠ [] ∧ p2.body ≠ [] ∧
+    runSchedule tables.mode F0 sh00 [{ np := 5, std := 6, oth := 7, tasks := [t1, t2] }]
+      = [[alone tables.mode F0 sh00 t1, alone tables.mode F0 sh00 t2]] ∧
+    runSchedule tables.mode F0 sh00 [{ np := 1, std := 1, oth := 1, tasks := [t2] }, { np := 9, std := 9, oth := 9, tasks := [t1] }]
+      = [[alone tables.mode F0 sh00 t2], [alone tables.mode F0 sh00 t1]] ∧
+    alone tables.mode F0 sh00 t1 ≠ alone tables.mode { F0 with seed := fun _ d => d + 50 } sh00 t1 := by
   decide +kernel
 
 end LdarModel.Effects
